@@ -57,6 +57,19 @@ func main() {
 		worker(*prop, *tier, *seed, *start, *stride, *count, *deadline)
 	case "exec", "replay":
 		os.Exit(execFile(*file, cmd == "replay", *keepLog))
+	case "one":
+		tr := chain.NewExploreTrace(*prop, *tier, *seed, *start)
+		res := chain.RunTrace(tr, true, chain.WorldDir(*start), chain.RunOpts{KeepLog: true, KeepTrace: true})
+		for _, l := range res.Log {
+			fmt.Println(l)
+		}
+		for _, v := range res.Violations {
+			fmt.Println("VIOLATION:", v.String(), "shape="+v.Shape)
+		}
+		if *file != "" {
+			_ = res.Trace.Save(*file)
+		}
+		fmt.Println(res.Sample)
 	case "selftest":
 		os.Exit(selftest(*seeds, *seed))
 	default:
